@@ -737,6 +737,35 @@ static std::string boolres_check(int which) {
 }
 
 // ------------------------------------------------------------------------------------------------
+// PART E: an Optional / Entry compared WITH ITSELF (same object on both sides). "The values decide":
+// the result must be what the held values give, also when the value's == is not reflexive (NaN),
+// and must agree with the Optional-value form on the same object.
+// which = kind*18 + valueIndex*6 + op; kind 0 Optional<double>, 1 Entry<double,0>; value 0 empty, 1 1.5, 2 NaN
+// ------------------------------------------------------------------------------------------------
+template <class O> static std::string selfcmp_one(const char* type, int vi, int op) {
+  const double vals[3] = {0, 1.5, std::numeric_limits<double>::quiet_NaN()};
+  O o; if (vi) o = vals[vi];
+  const O& c = o;
+  const bool got = apply_cmp(op, c, c);
+  bool want;
+  if (!vi) want = (op == 0 || op == 4 || op == 5);
+  else {
+    // only == and < of the value type are consulted (the library derives != > <= >= from them, as the
+    // Optional-Optional operators document); for a partially ordered value (NaN) this differs from double's own <=
+    const bool eq = vals[vi] == vals[vi], lt = vals[vi] < vals[vi];
+    want = op == 0 ? eq : op == 1 ? !eq : (op == 2 || op == 3) ? lt : !lt;
+  }
+  const std::string txt = std::string(type) + (vi == 0 ? " (empty)" : vi == 1 ? " holding 1.5" : " holding NaN");
+  if (got != want) return "wrong-comparison: " + txt + " compared with itself: x " + kCmpOp[op] + " x is " + (got ? "true" : "false") + ", the values give " + (want ? "true" : "false");
+  if (vi) { const bool ov = apply_cmp(op, c, c.get()); if (ov != got) return "wrong-comparison: " + txt + ": x " + kCmpOp[op] + " x is " + (got ? "true" : "false") + " but x " + kCmpOp[op] + " x.get() is " + (ov ? "true" : "false"); }
+  return "";
+}
+static std::string selfcmp_check(int which) {
+  const int kind = which / 18, vi = (which / 6) % 3, op = which % 6;
+  return kind == 0 ? selfcmp_one<nop::Optional<double>>("Optional<double>", vi, op) : selfcmp_one<nop::Entry<double, 0>>("Entry<double,0>", vi, op);
+}
+
+// ------------------------------------------------------------------------------------------------
 // Reduced alphabets for the bounded-exhaustive driver
 // ------------------------------------------------------------------------------------------------
 static Op mkop(int k, int a, int b = -1, uint64_t n = 0) { Op o{}; o.kind = (uint8_t)k; o.a = (uint8_t)a; o.b = (uint8_t)(b < 0 ? a : b); o.n = n; return o; }
@@ -790,6 +819,8 @@ int main(int argc, char** argv) {
       if (m == "skip") { fprintf(stderr, "cmp case does not exist\n"); return 2; }
     } else if (text.rfind("prop=C13 boolres=", 0) == 0) {
       m = boolres_check(atoi(text.c_str() + 17));
+    } else if (text.rfind("prop=C13 selfcmp=", 0) == 0) {
+      m = selfcmp_check(atoi(text.c_str() + 17));
     } else if (text.rfind("prop=C13 msg=", 0) == 0) {
       m = msg_check(atol(text.c_str() + 13));
     } else { fprintf(stderr, "no C13 case in replay file\n"); return 2; }
@@ -878,6 +909,16 @@ int main(int argc, char** argv) {
       else if (w % 4 != (w / 4) % 4) rep.nontriv(hash_str(rep.current_case));
     }
     rep.label("D:result-of-bool-assignments", 64);
+  }
+  // ---- PART E ----
+  if (a.shard == 0) {
+    for (int w = 0; w < 36; w++) {
+      rep.current_case = "prop=C13 selfcmp=" + std::to_string(w); rep.evaluations++;
+      std::string m = selfcmp_check(w);
+      if (!m.empty()) { std::string key = "C13|selfcmp|" + std::to_string(w / 18); bool seen = false; for (auto& f : rep.failures) if (f.key == key) seen = true; if (!seen) rep.fail(m, rep.current_case, key); }
+      else if ((w / 6) % 3) rep.nontriv(hash_str(rep.current_case));
+    }
+    rep.label("E:self-comparisons", 36);
   }
   // ---- PART B ----
   if (a.shard == 0) {
